@@ -294,6 +294,23 @@ class Executor:
     def __init__(self, ctx):
         self.ctx = ctx
 
+    def deep_clone(self, node):
+        """copy of a value including everything reachable through pointers (sharing preserved)"""
+        memo = {}
+
+        def cl(n):
+            if id(n) in memo:
+                return memo[id(n)]
+            c = Node(n.name, n.ty)
+            memo[id(n)] = c
+            c.variant = n.variant
+            c.val = n.val
+            c.kids = {k: cl(v) for k, v in n.kids.items()}
+            if isinstance(n.val, Ptr):
+                c.val = Ptr(cl(n.val.node))
+            return c
+        return cl(node)
+
     def lookup(self, st, local, path, fid=0, ty=None):
         """walk from a local of frame `fid` along path items: '*' (deref), int / str keys (children). Returns the value."""
         node = st["mem"][(fid, local)]
@@ -620,7 +637,7 @@ class Executor:
         raise Unsupported("rvalue " + k)
 
     # ---------------------------------------------------------------- driver
-    def run(self, body, args=None, pre=None, frame_name="f", pc0=None, events0=None):
+    def run(self, body, args=None, pre=None, frame_name="f", pc0=None, events0=None, extra_roots=None):
         """args: list of values for params (None -> lazily symbolic named arg<i>). Returns list[Path]."""
         self.ctx.encoded_bodies.add(body.name)
         st = {"mem": {}, "names": {0: frame_name}, "events": list(events0 or []), "pc": list(pc0 or []), "nframes": 1}
@@ -630,6 +647,8 @@ class Executor:
                 self.write(n, args[i])
                 n.name = f"arg{i + 1}"
             st["mem"][(0, idx)] = n
+        for i, n in enumerate(extra_roots or []):
+            st["mem"][("extra", i)] = n       # travels with the state (forked consistently); read back from path.frame
         if pre:
             pre(self, st, body)
         out = []
